@@ -155,13 +155,60 @@ func convergePinned(w *hist.World, g *hist.Gen) {
 	}
 	sortStr(subs)
 	sortStr(topics)
+	// a third of the cases first add the one constellation the rest of the history rarely
+	// leaves behind: a message dead-lettered from a subscription and a topic that are
+	// about to die completely, still unacknowledged on a live subscription of a live
+	// dead-letter topic (a forwarded message keeps belonging to its original topic)
+	planted := ""
+	if r.Intn(3) == 0 {
+		tx, dx := "projects/p/topics/zz-src", "projects/p/topics/zz-dead"
+		sx, qx := "projects/p/subscriptions/zz-src", "projects/p/subscriptions/zz-dead"
+		w.CreateTopic(tx)
+		w.CreateTopic(dx)
+		w.CreateSub(hist.SubSpec{Name: qx, Topic: dx})
+		w.CreateSub(hist.SubSpec{Name: sx, Topic: tx, DLTopic: dx, MaxAttempts: 1, MinB: time.Second, MaxB: time.Second})
+		w.Publish(tx, []hist.PubMsg{{Data: []byte(`{"planted":1}`)}, {Data: []byte(`{"planted":2}`)}})
+		var ids []string
+		for _, rm := range w.Pull(sx, 10) {
+			ids = append(ids, rm.AckId)
+		}
+		if len(ids) > 0 {
+			w.ModAck(sx, ids, 0)
+		}
+		w.Jump(10 * time.Millisecond)
+		w.Pull(sx, 10) // retires them (one delivery each) and forwards them
+		planted = tx
+		subs = append(subs, sx, qx)
+		topics = append(topics, tx, dx)
+		sortStr(subs)
+		sortStr(topics)
+	}
+	// per topic: everything about it dies (the topic and all its subscriptions), only
+	// the topic dies, only some subscriptions die, or nothing does - so that wholly
+	// dead topics sit next to live ones that may still hold what was forwarded to them
+	mode := map[string]int{}
+	for _, n := range topics {
+		mode[n] = r.Intn(5)
+	}
+	if planted != "" {
+		mode[planted], mode["projects/p/topics/zz-dead"] = 0, 4
+	}
 	for _, n := range subs {
-		if r.Intn(5) < 2 {
+		s := w.Subs[n]
+		if s == nil {
+			continue
+		}
+		switch mode[s.Topic.Name] {
+		case 0, 1:
 			w.DeleteSub(n)
+		case 3:
+			if r.Intn(2) == 0 {
+				w.DeleteSub(n)
+			}
 		}
 	}
 	for _, n := range topics {
-		if r.Intn(5) < 4 {
+		if mode[n] <= 2 {
 			w.DeleteTopic(n)
 		}
 	}
@@ -247,11 +294,34 @@ func convergePinned(w *hist.World, g *hist.Gen) {
 		}
 	}
 	count("reclaimable soft-deleted subscriptions", ns)
+	// a message that stays (a delivery of it is still outstanding - possibly on a
+	// subscription of another, live topic it was dead-lettered to) needs its topic's
+	// row. The job that reclaims topics works in batches that fail as a whole on
+	// such a row, so while one exists no claim is made about deleted topics at all
+	// (the clause's premise - everything acknowledged, expired or deleted - does not
+	// hold for them)
+	msgPin := false
+	topicDeleted := map[string]bool{}
+	for _, t := range d["topics"] {
+		if t["deleted_at"] != "NULL" {
+			topicDeleted[t["id"]] = true
+		}
+	}
+	for _, m := range d["messages"] {
+		if stayDelsOfMsg[m["id"]] > 0 && topicDeleted[m["topic_id"]] {
+			msgPin = true
+		}
+	}
 	nt := 0
 	for _, t := range d["topics"] {
 		if oldT(t["deleted_at"]) && subOfTopic[t["id"]] == 0 && dlPin[t["id"]] == 0 {
 			nt++
 		}
+	}
+	if msgPin {
+		nt = 0
+		delete(lastErr, "prune-deleted-topics")
+		w.Stats["pinned_convergence_topics_pinned_by_a_live_message"]++
 	}
 	if len(d["snapshots"]) > 0 {
 		nt = 0 // a snapshot row pins its topic: the recorded finding of the full variant
